@@ -75,7 +75,7 @@ def segEncode (s : Segment) (version : Int) (buf : Buffer) : Out Buffer :=
 
 /-- the pinned source writes `8 - Len%8` zero bits before the pad codewords, i.e. eight of them
 when the terminator ended on a byte boundary; a repaired source aligns only when not aligned -/
-def PAD_ALIGN_ALWAYS : Bool := true
+def PAD_ALIGN_ALWAYS : Bool := false
 
 /-- Go: `encodeSegments` (including the Reed-Solomon codewords, which this package appends here) -/
 def encodeSegments (qr : QRCode) (buf : Buffer) : Out Buffer := do
@@ -85,7 +85,7 @@ def encodeSegments (qr : QRCode) (buf : Buffer) : Out Buffer := do
   let cap ← capAt Gen.Micro.capacityTable qr.version qr.level
   if buf.len > cap.dataBits then Out.err (α := Unit) "qrcode: data too large"
   let mut left := cap.dataBits - buf.len
-  let terminate : Nat := if qr.version = 1 then 3 else if qr.version = 2 then 5 else if qr.version = 3 then 7 else if qr.version = 4 then 8 else 0
+  let terminate : Nat := if qr.version = 1 then 3 else if qr.version = 2 then 5 else if qr.version = 3 then 7 else if qr.version = 4 then 9 else 0
   if terminate < left then left := terminate
   buf ← writeBitsLSB buf 0 left
   if buf.len < cap.dataBits then
